@@ -369,19 +369,18 @@ pub fn remaining_line_content<'a>(input: &'a mut LineReader) -> Result<&'a str, 
         input.reader.advance(offset);
         return Err(unexpected(input, "a newline"));
     }
-    input.line_at_offset(offset + 1);
-
     let bytes = &input.reader.buf()[..offset];
 
-    match std::str::from_utf8(bytes) {
-        Ok(_line) => {
+    match std::str::from_utf8(bytes).map(|_| ()).map_err(|err| err.valid_up_to()) {
+        Ok(()) => {
+            input.line_at_offset(offset + 1);
             // SAFETY we just checked this,
             Ok(unsafe {
                 std::str::from_utf8_unchecked(&input.reader.advance_with_buf(offset + 1)[..offset])
             })
         }
-        Err(err) => {
-            input.reader.advance(err.valid_up_to());
+        Err(valid_up_to) => {
+            input.reader.advance(valid_up_to);
             Err(unexpected(input, "a valid utf-8 character"))
         }
     }
